@@ -932,4 +932,12 @@ def _join_non_none(primacy, other):""")]),
             existing_src = f.read()""", """        with open(filename, "rt") as f:
             f.seek(0)
             existing_src = f.read()""")]),
+    dict(id="latebind-helper-def-used-in-iteration", kind=N, props=["C15", "C11"], expect="silent", edits=[("ast_utils.py",
+         """            if isinstance(child_node, FunctionDef):
+
+                def set_index_and_location(idx_arg):""", """            if not isinstance(child_node, FunctionDef):
+                continue
+            if True:
+
+                def set_index_and_location(idx_arg):""")]),
 ]
